@@ -1,4 +1,5 @@
 import Goyang.Lemmas.BridgeBuilt
+import Goyang.Lemmas.ConfigNsDev
 import Goyang.Props.C12
 import Goyang.Props.C12Conv
 import Goyang.Props.C04
@@ -108,6 +109,81 @@ theorem processAll_builtPrime (reg : Registry) (opts : Opts) (plug : Plug)
   obtain ⟨_, _, _, _, h5⟩ := Lemmas.Tree.processAll_clean reg opts plug hclean
   rw [h5, devStage_no_deviations reg opts plug _ hnd]
   exact preDev_builtPrime reg opts plug
+
+/-! ### the deviation stage, and the error-free run -/
+section Dev
+open Goyang.Lemmas.ConfigNsDev (BuiltX Removed RootsClean)
+
+/-- Every `Built'` forest is `BuiltX` (root errors allowed), with the same provenance.  `BuiltX reg ae`
+(Lemmas/ConfigNsDev.lean) is `Built'` with the two steps of the deviation stage — `retouch`: the
+deviated copy of the target is written back (same children, stamp, name, errors); `remove`: `deviate
+not-supported` unlinks the target, the removed locations lose their placer — and with the error
+recording step `rootErr` available only when `ae = true`. -/
+theorem builtPrime_is_builtX {reg : Registry} {f : Forest} {prov : Loc → Option Nat} (h : Built' reg f prov) :
+    BuiltX reg true f prov := Goyang.Lemmas.ConfigNsDev.Built'.toBuiltX h
+
+/-- **Namespace attribution** (C12's `namespace_placedBy`) **through augments, `FixChoice` and
+deviations**: in any `BuiltX` forest a location placed by the text of (sub)module `m` — and not removed
+by a `deviate not-supported` — reports the namespace of the module `m` belongs to.  A deviation moves
+no node and writes no stamp: the deviated node keeps the placer (and namespace) it had. -/
+theorem namespace_placedBy_dev {reg : Registry} {ae : Bool} {f : Forest} {prov : Loc → Option Nat}
+    (hb : BuiltX reg ae f prov) (loc : Loc) (m : Nat) (root : Entry) (hroot : f.tree? loc.1 = some root)
+    (hp : prov loc = some m) : namespaceAt reg f loc = ownerNs reg m :=
+  Goyang.Lemmas.ConfigNsDev.builtX_namespace hb loc m (by rw [hroot]; rfl) hp
+
+/-- **On an error-free run the error-recording steps are absent.**  Errors recorded on a root entry
+are never removed (a graft on the root appends to them, every other step leaves the root's own error
+list alone); so a forest built with `rootErr` steps allowed whose visible roots carry no error was
+built without one: it is `BuiltX reg false`.  (`Built'`'s other two extra steps — `Find` creating an
+absent rpc input / output, storing back an unchanged tree — do occur on error-free runs; they write no
+stamp and keep the provenance: the created input / output inherits the rpc's namespace.) -/
+theorem builtX_of_clean {reg : Registry} {f : Forest} {prov : Loc → Option Nat} (hb : BuiltX reg true f prov)
+    (hc : ∀ id t, f.tree? id = some t → t.d.errors = []) : BuiltX reg false f prov :=
+  Goyang.Lemmas.ConfigNsDev.builtX_clean hb hc
+
+/-- **The deviation stage keeps a forest `BuiltX`** — every registry, option set, plug and start
+forest; deviations that apply, fail, or remove nodes included. -/
+theorem devStage_keeps_builtX (reg : Registry) (opts : Opts) (plug : Plug) (f0 : Forest)
+    (hb : ∃ prov, BuiltX reg true f0 prov) :
+    ∃ prov, BuiltX reg true (Lemmas.Tree.devStage reg opts plug f0).1 prov :=
+  Goyang.Lemmas.ConfigNsDev.devStage_builtX reg opts plug f0 hb
+
+/-- **The forest `processAll` ends with** (whenever it reaches the augment phase; clean or not,
+deviations or not) **is `BuiltX`**: conversion, augment loop, `FixChoice`, leftover pass, second
+`FixChoice`, deviation stage. -/
+theorem final_builtX (reg : Registry) (opts : Opts) (plug : Plug) :
+    ∃ prov, BuiltX reg true (Lemmas.Tree.devStage reg opts plug (Lemmas.Tree.preDev reg opts plug).forest).1 prov :=
+  Goyang.Lemmas.ConfigNsDev.final_builtX reg opts plug
+
+/-- **C12's end-to-end statement, deviations included**: the forest of an error-free `processAll`
+run is `BuiltX reg false` — built by conversion, grafts, `FixChoice`, implicit rpc input / output
+creation, write-back of deviated nodes and removal of not-supported ones; no error recording step. -/
+theorem processAll_provenance (reg : Registry) (opts : Opts) (plug : Plug)
+    (hclean : (processAll reg opts plug).errors = []) :
+    ∃ prov, BuiltX reg false (processAll reg opts plug).forest prov :=
+  Goyang.Lemmas.ConfigNsDev.processAll_builtX_clean reg opts plug hclean
+
+/-- **End to end, on `processAll`.**  For an error-free run — deviations included — there is a
+provenance `prov` of the returned forest (derived by `BuiltX reg false`: initial nodes placed by their
+tree's module, grafted nodes by the module of the augment, library-inserted cases and removed
+locations by nobody) such that for every tree and every path of it:
+* a location with a placer `m` reports the namespace of the module `m` belongs to;
+* `ReadOnly()` is what the nearest decisive node on the path of the *returned* tree says — so a config
+  written by a deviation is the explicit config of that node from then on — and, under the property's
+  exclusion, the property's rule. -/
+theorem processAll_namespace_readOnly (reg : Registry) (opts : Opts) (plug : Plug)
+    (hclean : (processAll reg opts plug).errors = []) :
+    ∃ prov, BuiltX reg false (processAll reg opts plug).forest prov ∧
+      ∀ (loc : Loc) (root : Entry), (processAll reg opts plug).forest.tree? loc.1 = some root →
+        (∀ m, prov loc = some m → namespaceAt reg (processAll reg opts plug).forest loc = ownerNs reg m) ∧
+        root.readOnlyAt loc.2 = readOnlyExact (configsAlong root loc.2) ∧
+        (NoConfigTrueBelowOutput (configsAlong root loc.2) → root.readOnlyAt loc.2 = readOnly (configsAlong root loc.2)) := by
+  obtain ⟨prov, hb⟩ := processAll_provenance reg opts plug hclean
+  exact ⟨prov, hb, fun loc root hroot =>
+    ⟨fun m hp => namespace_placedBy_dev hb loc m root hroot hp, C12.readOnly_exact root loc.2,
+      fun h => C12.readOnly_spec root loc.2 h⟩⟩
+
+end Dev
 
 /-! ### non-vacuity -/
 section Examples
